@@ -5,7 +5,7 @@
    [outs] = the (member, value) pairs among them; [yields t] = the (key, value) pairs the group returned. *)
 From Coq Require Import List Arith Bool.
 Import ListNotations.
-Require Import ScanFull InstsFull ObligGroups C11Groups C02Join C02Groups.
+Require Import ScanFull InstsFull ObligGroups C11Groups C02Join C02Groups LiveGroups.
 
 Section C12.
   Variables (selective: bool) (cap0: nat) (ops: list op).
@@ -59,6 +59,33 @@ Print Assumptions C12_ledger.
 Theorem C12_insert_total (w: world gst) a sc : dropped _ w = false -> Tg (cs _ w) (strip (tr _ w)) -> dropped _ (g_mutate w 0 a sc) = false.
 Proof. exact (insert_never_panics w a sc). Qed.
 Print Assumptions C12_insert_total.
+
+(* ---- "yields every item of every member stream": every item does come out, and then the group is empty.  After ANY history whose inserted members
+        are streams scripted (Pending | Item)* then End ([goodop true]: no panic, no Ready), the wake-driven executor of C01 (a round = invoke the most
+        recent waker of the member of every slot, then poll with the same task) empties the group within (n + 1) * B rounds, n the number of items
+        still scripted and B any bound on the remaining script lengths; the world reached is again a history of the model, so C12_exactly_once,
+        C12_discipline, C12_len ... hold of it: with len = 0 every member has been dropped - at its End, after all its items were returned in order
+        (C12_exactly_once), or at its removal.  (Proofs/LiveGroups.v: sgroup_progress - within B rounds one scripted item fewer or the group empty,
+        items still scripted + outputs returned being invariant along polls and wake-ups; a None is only ever returned by an empty group.) *)
+Theorem C12_every_item_comes_out_under_wake_driven_executor cap0 ops B :
+  Forall (goodop true) ops ->
+  let rnd := rounds gst g_slots g_awaited g_member g_handle false false g_order g_pre_exit (fun _ => true) g_finish g_cleanup g_drop (fun _ => false) g_mutate in
+  let w := group_world true true cap0 ops in
+  finished _ w = false -> dropped _ w = false -> (forall m, length (nth m (scripts _ w) []) <= B) -> 1 <= B ->
+  exists R, R <= (items_total (scripts _ w) + 1) * B /\ let w' := rnd R w in
+    dropped _ w' = false /\ finished _ w' = false /\ g_len (cs _ w') = 0 /\
+    exists ops', Forall (goodop true) ops' /\ w' = group_world true true cap0 ops'.
+Proof. intros Hok rnd w Hf Hd HB HB1. exact (sgroup_drains cap0 B HB1 (items_total (scripts _ w)) w (ex_intro _ ops (conj Hok eq_refl)) Hf Hd (le_n _) HB). Qed.
+Print Assumptions C12_every_item_comes_out_under_wake_driven_executor.
+Example C12_drain_witness :
+  let P := {| fires := []; answer := APend |} in let I v := {| fires := []; answer := AItem v |} in let E := {| fires := []; answer := AEnd |} in
+  let ops := [OMut 0 0 [I 1; P; I 2; E]; OMut 0 0 [P; I 5; E]] in
+  let rnd := rounds gst g_slots g_awaited g_member g_handle false false g_order g_pre_exit (fun _ => true) g_finish g_cleanup g_drop (fun _ => false) g_mutate in
+  let w := group_world true true 0 ops in
+  items_total (scripts _ w) = 3 /\ dropped _ w = false /\ finished _ w = false /\
+  map (fun k => (g_len (cs _ (rnd k w)), yields (strip (tr _ (rnd k w))))) [1; 2; 3; 4; 5] =
+    [(2, [(0, 1)]); (2, [(0, 1)]); (2, [(0, 1); (0, 2)]); (1, [(0, 1); (0, 2); (1, 5)]); (0, [(0, 1); (0, 2); (1, 5)])].
+Proof. vm_compute. repeat split; reflexivity. Qed.
 
 Example C12_witness :
   let ops := [OMut 0 0 [{| fires := []; answer := AItem 5 |}; {| fires := []; answer := AEnd |}]; OMut 0 0 [{| fires := []; answer := AItem 6 |}];
